@@ -106,6 +106,9 @@ def oracle(case, line):
     once, on the target thread, FIFO per (poster, target, kind) on the run log, first push interrupts / no full poll
     timeout with queued work, cancel_final, counts drained at quiescence. Nothing about cross-kind order or about how
     a dispatch round batches the queues."""
+    if line.startswith("ERR:hang") or (line.startswith("CRASH") and "TIMEOUT" in line):
+        return [("hang", "implementation hangs under this schedule: a thread is blocked outside the scheduler's control (real futex / "
+                         "lock wait that no controlled thread can end): " + line[:160])]
     if line.startswith(("CRASH", "ERR:", "BADCASE", "MISSING", "MODEL-")):
         return [("crash", "harness/implementation crashed: " + line[:200])]
     bad = []
@@ -271,6 +274,23 @@ def probe_params(impl):
     return vals
 
 
+def run_impl(impl, cases, rep, pilot=64, chunk=4000):
+    """Implementation outputs for [cases]. The first [pilot] cases (corpus + hand cases come first) are run on their own, then
+    the bulk in chunks: once the implementation HANGS (harness watchdog, result 'ERR:hang ...') on a pilot case or on three
+    cases of one chunk, every further hanging case would cost a full watchdog period, so the remaining cases are not run - the
+    hangs are reported with their schedules and the rest is marked SKIPPED (neither compared nor counted as violations)."""
+    out = ltv.run_sharded(impl, cases[:pilot])
+    stop = any(o.startswith("ERR:hang") for o in out)
+    while not stop and len(out) < len(cases):
+        part = ltv.run_sharded(impl, cases[len(out):len(out) + chunk])
+        out += part
+        stop = sum(1 for o in part if o.startswith("ERR:hang")) >= 3 or not part
+    if len(out) < len(cases):
+        rep.cov.update(stopped_after_hang=True, skipped_after_hang=len(cases) - len(out))
+        out += ["SKIPPED"] * (len(cases) - len(out))
+    return out
+
+
 def run(rep, tier, seed, replay):
     impl = ltv.build_harness("c17", ["c17.cc"])
     probe = probe_params(impl)
@@ -279,7 +299,7 @@ def run(rep, tier, seed, replay):
                    theorems=coq["theorems"], axioms_per_theorem=coq["axioms"],
                    trusted_base=ltv.std_trusted_base(coq, [
                        "C++11 atomics taken as sequentially consistent (code uses relaxed/acquire/release); weak CAS modelled as strong CAS (x86)",
-                       "atomic::wait(old) modelled as 'enabled iff word != old' (no lost wake-up: each fetch_sub/fetch_and in thread.cc is directly followed by notify_all; checked by reading, not by proof); under the deterministic scheduler the real wait is only entered when it returns at once",
+                       "atomic::wait(old) is two-phase in the model (returns at once if the word differs, else BLOCKED until a later notify_all on the id; release_store_notifies / no_lost_wakeup_* are theorems); in the harness the real std::atomic::wait / notify_all run, their futex system calls are interposed (harness/common/futex_interpose.h) so that a blocked controlled thread is parked until a controlled thread really notifies its address - relies on libstdc++ implementing atomic wait/notify through syscall(SYS_futex) on the waited 32-bit word",
                        "deterministic scheduler harness/common/sched.h and the assumption that the LT_VERIF_SCHED points of hooks/c17.patch cover every shared-memory operation of the modelled functions (24 points; audit: grep of id->/m_callbacks_lock/m_has_ in thread.cc)",
                        "modelled not verified: Poll::do_interrupt reduced to 'sets flag_interrupted of a polling target'; epoll/eventfd wake-up itself is not modelled",
                        "python oracle props/c17.py on the implementation's step log"]))
@@ -299,7 +319,7 @@ def run(rep, tier, seed, replay):
             cases += [p + " / " + s for s in f[1:]]
             nex += len(f) - 1
         stats["exhaustive_cases"] = nex
-    io = ltv.run_sharded(impl, cases)
+    io = run_impl(impl, cases, rep)
     # the model follows the implementation's dispatch policy: the per-lock-section choices observed in the trace are
     # given to the model as part of its dispatch commands (the theorems quantify over all such choices)
     mcases = []
@@ -318,6 +338,8 @@ def run(rep, tier, seed, replay):
     for i, case in enumerate(cases):
         m = mo[i] if i < len(mo) else "MISSING"
         o = io[i] if i < len(io) else "MISSING"
+        if o == "SKIPPED":
+            continue
         for lab in re.findall(r" \d:([a-z_]+):", o):
             labels_seen[lab] = labels_seen.get(lab, 0) + 1
         if ":R" in o and (":pc_skip_sub:" in o or ":cw_cas:" in o or ":dl_" in o or ":cc_fetch_add:" in o):
